@@ -178,3 +178,143 @@ def replay_c11_armed(ctx, obl, info, vals):
     if rc == 1 and any('VIOLATION' in l for l in lines):
         return 'REPLAYED on the real code (native build of this tree; the schedule "close() lands between the two is_closed loads" is forced through the public BorrowMut parameter of SignalIterator):\n  ' + '\n  '.join(lines)
     return None
+
+
+# ---- C15: flags and conditional shutdown, replayed in forked children -----------------------------
+C15_MAIN = r'''
+use std::env;
+use std::sync::atomic::{AtomicBool, AtomicUsize, Ordering};
+use std::sync::Arc;
+fn main() {
+    let a: Vec<String> = env::args().skip(1).collect();
+    let sig = signal_hook::consts::SIGUSR1;
+    match a[0].as_str() {
+        "usize" => {
+            let prior: usize = a[1].parse().unwrap();
+            let value: usize = a[2].parse().unwrap();
+            let f = Arc::new(AtomicUsize::new(prior));
+            signal_hook::flag::register_usize(sig, Arc::clone(&f), value).unwrap();
+            unsafe { libc::raise(sig) };
+            let got = f.load(Ordering::SeqCst);
+            println!("register_usize(value={}) with the flag holding {} before the delivery: flag after the delivery = {}", value, prior, got);
+            std::process::exit(if got == value { 0 } else { 1 });
+        }
+        "bool" => {
+            let prior: bool = a[1] == "1";
+            let f = Arc::new(AtomicBool::new(prior));
+            signal_hook::flag::register(sig, Arc::clone(&f)).unwrap();
+            unsafe { libc::raise(sig) };
+            let got = f.load(Ordering::SeqCst);
+            println!("flag::register with the flag holding {} before the delivery: flag after the delivery = {}", prior, got);
+            std::process::exit(if got { 0 } else { 1 });
+        }
+        _ => {
+            let cond: bool = a[1] == "1";
+            let status: i32 = a[2].parse().unwrap();
+            unsafe {
+                let pid = libc::fork();
+                if pid == 0 {
+                    extern "C" fn hook() { unsafe { libc::_exit(77) } }
+                    libc::atexit(hook);
+                    signal_hook::flag::register_conditional_shutdown(sig, status, Arc::new(AtomicBool::new(cond))).unwrap();
+                    libc::raise(sig);
+                    libc::_exit(99); // the delivery returned
+                }
+                let mut st = 0;
+                libc::waitpid(pid, &mut st, 0);
+                let got = if libc::WIFEXITED(st) { libc::WEXITSTATUS(st) } else { -1 };
+                let want = if cond { status & 0xff } else { 99 };
+                println!("register_conditional_shutdown(status={}) with the condition {}: child exit code {} (77 = an exit-time hook ran, 99 = the delivery returned), expected {}", status, cond, got, want);
+                std::process::exit(if got == want { 0 } else { 1 });
+            }
+        }
+    }
+}
+'''
+
+
+def _c15(ctx, args):
+    rc, out = native_run(ctx['scratch'], 'c15', C15_MAIN, args=args)
+    line = [l for l in out.splitlines() if l.startswith('register_') or l.startswith('flag::')]
+    if rc == 1 and line:
+        return 'REPLAYED on the real code (native build of this tree):\n  %s\n  => differs from what the property demands' % line[0]
+    return None
+
+
+def replay_c15_value(ctx, obl, info, vals):
+    # harness c15_flag_usize: any() order: initial flag value, value, [signal], ...
+    if not vals or len(vals) < 2:
+        return None
+    prior, value = le_int(vals[0], signed=False), le_int(vals[1], signed=False)
+    for pr in (prior, 12, 1):
+        r = _c15(ctx, ['usize', str(pr), str(value)])
+        if r:
+            return r
+    return None
+
+
+def replay_c15_set(ctx, obl, info, vals):
+    for pr in ('0', '1'):
+        r = _c15(ctx, ['bool', pr])
+        if r:
+            return r
+    return None
+
+
+def replay_c15_shutdown(ctx, obl, info, vals):
+    # harness c15_cond_shutdown: any() order: condition (bool), status (i32), ...
+    cand = []
+    if vals and len(vals) >= 2:
+        cand.append((str(le_int(vals[0]) & 1), str(le_int(vals[1]))))
+    cand += [('1', '0'), ('1', '3'), ('1', '258'), ('0', '5')]
+    for c, s in cand:
+        r = _c15(ctx, ['shutdown', c, s])
+        if r:
+            return r
+    return None
+
+
+# ---- C13: self-pipe registration on a full pipe / on an invalid descriptor --------------------------
+C13_MAIN = r'''
+fn main() {
+    let sig = signal_hook::consts::SIGUSR2;
+    let mode = std::env::args().nth(1).unwrap();
+    unsafe {
+        if mode == "invalid" {
+            let r = signal_hook::low_level::pipe::register_raw(sig, 987);
+            println!("register_raw(SIGUSR2, 987 /* not an open descriptor */) => {}", if r.is_ok() { "Ok (accepted)" } else { "Err (rejected)" });
+            std::process::exit(if r.is_err() { 0 } else { 1 });
+        }
+        let mut fds = [0; 2];
+        libc::pipe(fds.as_mut_ptr());
+        // fill the pipe completely, then make it blocking again (as the application handed it over)
+        let fl = libc::fcntl(fds[1], libc::F_GETFL, 0);
+        libc::fcntl(fds[1], libc::F_SETFL, fl | libc::O_NONBLOCK);
+        let buf = [0u8; 4096];
+        while libc::write(fds[1], buf.as_ptr() as *const _, buf.len()) > 0 {}
+        while libc::write(fds[1], buf.as_ptr() as *const _, 1) > 0 {}
+        libc::fcntl(fds[1], libc::F_SETFL, fl);
+        let pid = libc::fork();
+        if pid == 0 {
+            libc::alarm(3);
+            signal_hook::low_level::pipe::register_raw(sig, fds[1]).unwrap();
+            libc::raise(sig); // the delivery writes its byte into the full pipe
+            libc::_exit(0);
+        }
+        let mut st = 0;
+        libc::waitpid(pid, &mut st, 0);
+        let blocked = libc::WIFSIGNALED(st) && libc::WTERMSIG(st) == libc::SIGALRM;
+        println!("delivery with a completely full self-pipe: {}", if blocked { "the handler BLOCKED in write() (killed by the 3 s alarm)" } else { "returned promptly" });
+        std::process::exit(if blocked { 1 } else { 0 });
+    }
+}
+'''
+
+
+def replay_c13(ctx, obl, info, vals):
+    mode = 'invalid' if 'REJECT-INVALID' in obl else 'full'
+    rc, out = native_run(ctx['scratch'], 'c13', C13_MAIN, args=[mode])
+    line = [l for l in out.splitlines() if l.startswith('register_raw(') or l.startswith('delivery with')]
+    if rc == 1 and line:
+        return 'REPLAYED on the real code (native build of this tree):\n  %s\n  => violates the property' % line[0]
+    return None
